@@ -71,6 +71,8 @@ class TLCRun:
         if mode == "sim":
             cmd += ["-simulate", "num=%d" % sim_num, "-depth", str(sim_depth),
                     "-seed", str(seed)]
+        elif seed:
+            cmd += ["-seed", str(seed)]     # seeds RandomSubset / RandomElement in BFS mode
         cmd += [mc + ".tla"]
         if timeout:
             cmd = ["timeout", str(int(timeout))] + cmd
